@@ -9,6 +9,7 @@
 #include <scn/thread_pool.h>
 #include <scn/publisher.h>
 #include <scn/signal.h>
+#include <scn/generator.h>
 #define RUN(name, nthreads, wd, call) if (o.want(name)) { vf::report R("C03", name, o); vf::g_active_report = &R; vf::team T(nthreads, o, wd); call; T.export_hits(R); R.write(); vf::g_active_report = nullptr; }
 int main(int argc, char **argv) {
     vf::opts o(argc, argv);
@@ -25,5 +26,7 @@ int main(int argc, char **argv) {
     RUN("pool_mt", o.threads, true, scn::pool_mt(o, R, T, o.cases / 4 + 1));
     RUN("publisher_mt", o.threads, true, scn::publisher_mt(o, R, T, o.cases));
     RUN("signal_mt", o.threads, true, scn::signal_mt(o, R, T, o.cases));
+    RUN("generator_programs", 2, true, scn::generator_programs(o, R, T, o.cases));
+    RUN("aggregator_programs", 2, true, scn::aggregator_programs(o, R, T, o.cases));
     return 0;
 }
